@@ -1,6 +1,6 @@
 """Shared workload for C13 (method xrefs), C14 (field xrefs), C15 (string / class-usage xrefs) and the canonical analysis dump used by C16."""
 from vf.gen import refprog as R
-from vf.harness import exc_str
+from vf.harness import exc_str, load_known
 from vf.model import dexw as W
 
 MOD = "vf.checks.xrefwork"
@@ -39,21 +39,92 @@ def early_look(dx, rng):
     return n
 
 
-def analyse(datas, before_xref=None, look_rng=None):
+def analyse(datas, before_xref=None, look_rng=None, steps=(), final=None):
+    """Parse every DEX once, then build the Analysis under test from the objects `final` (indices into datas, in that order; default: all).
+    steps: the usage history of these very DEX OBJECTS - each step is a tuple of indices; the objects named are put into an Analysis of their own
+    and cross-referenced (a script that first looks at classes.dex alone, then at the whole APK; a tool that analyses every DEX per se and then all
+    of them together; ...). What an Analysis reports depends on the DEX files IT holds, not on the company its DEX objects kept before.
+    Returns (Analysis, [DEX objects of the final Analysis])"""
     from androguard.core import dex
     from androguard.core.analysis.analysis import Analysis
-    an = Analysis()
     dxs = []
     for d in datas:
         dx = dex.DEX(d)
         if look_rng is not None:
             early_look(dx, look_rng)
-        an.add(dx)
         dxs.append(dx)
+    for st in steps:
+        earlier = Analysis()
+        for i in st:
+            earlier.add(dxs[i])
+        earlier.create_xref()
+    an = Analysis()
+    fin = [dxs[i] for i in (range(len(dxs)) if final is None else final)]
+    for dx in fin:
+        an.add(dx)
     if before_xref:
-        before_xref(an, dxs)
+        before_xref(an, fin)
     an.create_xref()
-    return an, dxs
+    return an, fin
+
+
+class Buffered:
+    """stand-in for the Ctx in check(): counters and signatures go to the real Ctx (or nowhere: control runs), violations are held back - the
+    caller decides under which mechanism name they are reported"""
+
+    def __init__(self, ctx, forward):
+        self.ctx, self.forward, self.v = ctx, forward, {}
+
+    def count(self, name, n=1):
+        if self.forward:
+            self.ctx.count(name, n)
+
+    def sig(self, *parts):
+        if self.forward:
+            self.ctx.sig(*parts)
+
+    def violation(self, mechanism, what, witness=None):
+        self.v.setdefault(mechanism, []).append((what, witness))
+
+
+def gen_usage(rng, ndex):
+    """-> (steps, final): what happened to the DEX objects before, and which of them (in which order) make up the Analysis under test"""
+    def subset():
+        k = rng.randrange(1, ndex + 1)
+        return tuple(rng.sample(range(ndex), k))
+    steps = []
+    r = rng.random()
+    if ndex == 1:
+        steps = [(0,)] * rng.choice([1, 1, 2])           # the same object analysed again
+    elif r < 0.3:
+        steps = [(i,) for i in range(ndex)]               # every piece per se first
+        rng.shuffle(steps)
+    elif r < 0.5:
+        steps = [(rng.randrange(ndex),)]                  # one piece alone first
+    else:
+        steps = [subset() for _ in range(rng.choice([1, 1, 2]))]
+    final = tuple(range(ndex))
+    if ndex > 1 and rng.random() < 0.3:
+        final = subset()                                  # ... a piece (or the pieces in another load order) after it was analysed in company
+        if rng.random() < 0.7:
+            steps.insert(rng.randrange(len(steps) + 1), tuple(rng.sample(range(ndex), ndex)))
+    return steps, final
+
+
+def usage_pairs(steps, final, ndex):
+    """-> (alone, together): `alone` = pairs (i, j) of DEX files of the final Analysis where object i was cross-referenced before WITHOUT j (what i
+    references in j was external then and is defined now); `together` = pairs (i, j), i in the final Analysis and j not, where i was
+    cross-referenced before in the company of j (what was defined then is external now)"""
+    alone, together = set(), set()
+    for i in final:
+        for j in range(ndex):
+            if i == j:
+                continue
+            if j in final and any(i in st and j not in st for st in steps):
+                alone.add((i, j))
+            if j not in final and any(i in st and j in st for st in steps):
+                together.add((i, j))
+    return alone, together
 
 
 def expected(classes):
@@ -112,7 +183,45 @@ def dontcare_class_sites(classes):
     return out
 
 
-def check(ctx, which, classes, an, dxs, wit):
+def relevant(which, c, site, exp):
+    """is this site of a method of class c one that check(which) compares (and expects to be listed)?"""
+    off, kind, opname, tgt = site
+    if which == "C13":
+        return kind == "invoke" and not tgt[0].startswith("[")
+    if which == "C14":
+        return kind in ("field-read", "field-write") and tgt in exp["defined_fields"]
+    if kind == "string":
+        return True
+    return kind in ("new-instance", "const-class") and tgt.startswith("L") and tgt != c.name
+
+
+def count_scenarios(ctx, which, classes, exp, info):
+    """called when every comparison of check() went through: how many of the compared sites belong to the special scenarios"""
+    shared = info.get("shared") or ()
+    if shared:
+        n = sum(1 for c in classes for m in c.methods if m.key in shared for s in m.sites if relevant(which, c, s, exp))
+        ctx.count("sites_compared_in_methods_sharing_a_code_item", n)
+        ctx.count("methods_sharing_a_code_item_checked", sum(1 for c in classes for m in c.methods if m.key in shared))
+    alone, together = info.get("alone") or (), info.get("together") or ()
+    if alone or together:
+        c2d = info["class_to_dex"]
+        for c in classes:
+            for m in c.methods:
+                for s in m.sites:
+                    off, kind, opname, tgt = s
+                    tcls = tgt[0] if kind in ("invoke", "field-read", "field-write") else None if kind == "string" else tgt.lstrip("[")
+                    di, dj = c2d[c.name], c2d.get(tcls)
+                    if dj is None or di == dj:
+                        continue
+                    if (di, dj) in alone and relevant(which, c, s, exp):
+                        # the target is defined in the Analysis under test, in a DEX the accessing DEX object was once cross-referenced without
+                        ctx.count("cross_dex_sites_compared_after_the_dex_object_was_analysed_without_the_other_dex")
+                    if (di, dj) in together and (which != "C14" or tgt in info["all_fields"]):
+                        # the target was defined in an earlier Analysis of the accessing DEX object and is external in the one under test
+                        ctx.count("sites_on_a_former_companion_dex_compared")
+
+
+def check(ctx, which, classes, an, dxs, wit, info=None):
     exp = expected(classes)
 
     def viol(mech, what, extra):
@@ -340,6 +449,8 @@ def check(ctx, which, classes, an, dxs, wit):
                 if got != want:
                     viol("%s-method-side-%s" % (kind.replace("_", "-"), "missing" if want - got else "extra"), "a method's instantiation/class-reference list differs from its instructions",
                          {"method": mk, "got": sorted(got), "want": sorted(want)})
+    if info:
+        count_scenarios(ctx, which, classes, exp, info)
 
 
 def spaced(desc):
@@ -371,6 +482,14 @@ def shard(ctx, arg):
             parts = [classes[:cut], classes[cut:]]
         else:
             parts = [classes]
+        # usage-sequence and layout scenarios draw from a stream of their own: the programs (and everything drawn from rng) stay what they were
+        rng2 = ctx.rng("xref-usage", idx, k)
+        if split and len(parts[1]) >= 2 and rng2.random() < 0.3:
+            cut2 = rng2.randrange(1, len(parts[1]))
+            parts = [parts[0], parts[1][:cut2], parts[1][cut2:]]       # three DEX files
+        twins = R.add_code_twins(classes, rng2) if rng2.random() < 0.35 else []
+        if twins:
+            ctx.count("programs_with_twin_methods")
         models = [R.to_model(p) for p in parts]
         big = None
         if rng.random() < (1 / 30 if ctx.quick else 1 / 160):
@@ -385,9 +504,38 @@ def shard(ctx, arg):
         wopts = None
         if rng.random() < 0.2:
             wopts = {"string_data_order": __import__("random").Random(rng.getrandbits(32))}     # string data items not in pool order
-        datas = [W.write_dex(m, wopts) for m in models]
+        if rng2.random() < (0.85 if twins else 0.15):
+            # code-item deduplication (dexlayout / D8): methods with a byte-identical code_item share it - several encoded_method entries with ONE
+            # code_off, within a class or across the classes of the file. Each of these methods has every instruction of the shared code.
+            wopts = dict(wopts or {}, share_identical_code_items=rng2.choice(["file", "file", "class"]))
+        written = [W.write_dex(m, wopts, want_writer=True) for m in models]
+        datas = [d for d, w_ in written]
+        shared = {(q[0], q[1], "(%s)%s" % ("".join(q[3]), q[2])) for d, w_ in written for lst in w_.shared_code.values() for q in lst}
+        if shared:
+            ctx.count("dex_files_with_shared_code_items", sum(1 for d, w_ in written if w_.shared_code))
+            ctx.count("methods_sharing_a_code_item", len(shared))
         class_to_dex = {c.name: i for i, p in enumerate(parts) for c in p}
-        wit = {"classes": [(c.name, c.sfields, c.ifields, [(m.key, m.sites) for m in c.methods]) for c in classes][:4], "dex_files": len(datas), "class_to_dex": class_to_dex, "padding_fields_and_methods_before_the_program": big}
+        steps, final = (), tuple(range(len(parts)))
+        if rng2.random() < (0.5 if split else 0.15) and not (big and ctx.quick):
+            steps, final = gen_usage(rng2, len(parts))
+        alone, together = usage_pairs(steps, final, len(parts))
+        all_classes = classes
+        if len(final) < len(parts):
+            classes = [c for i in sorted(final) for c in parts[i]]      # the Analysis under test holds these classes only
+        info = {"shared": shared, "alone": alone, "together": together, "class_to_dex": class_to_dex,
+                "all_fields": {(c.name, f[0], f[1]) for c in all_classes for f in c.sfields + c.ifields}}
+        wit = {"classes": [(c.name, c.sfields, c.ifields, [(m.key, m.sites) for m in c.methods]) for c in all_classes][:4], "dex_files": len(datas), "class_to_dex": class_to_dex, "padding_fields_and_methods_before_the_program": big}
+        if shared:
+            wit["methods_sharing_one_code_item"] = [sorted(lst) for d, w_ in written for lst in w_.shared_code.values()][:6]
+        if steps:
+            wit["history_of_the_dex_objects"] = {"earlier_analyses_(dex_indices)": [list(st) for st in steps], "analysis_under_test_(dex_indices)": list(final)}
+            ctx.count("analyses_of_dex_objects_that_were_analysed_before")
+            if alone:
+                ctx.count("analyses_with_a_companion_dex_the_object_was_analysed_without")
+            if together:
+                ctx.count("analyses_without_a_dex_the_object_was_analysed_with")
+        elif final != tuple(range(len(parts))):
+            wit["analysis_under_test_(dex_indices)"] = list(final)
         ctx.ev()
         ctx.count("analyses")
         try:
@@ -408,16 +556,38 @@ def shard(ctx, arg):
                                 ctx.count("methods_renamed_before_create_xref")
                                 return
             look = None
+            look_seed = rng2.getrandbits(32)
             if rng.random() < 0.25:
-                look = rng
+                look = __import__("random").Random(look_seed)      # (own stream: how many methods there are to look at does not shift the programs that follow)
                 wit["history"] = "first instructions of some methods were looked at before the Analysis was built"
                 ctx.count("analyses_after_an_early_partial_look")
-            an, dxs = analyse(datas, hook, look)
+            an, dxs = analyse(datas, hook, look, steps, final)
         except Exception as e:
             ctx.violation("analysis-raises", "Analysis.add/create_xref raises on generated valid code", dict(wit, exc=exc_str(e)))
             continue
         try:
-            check(ctx, which, classes, an, dxs, wit)
+            if not steps:
+                check(ctx, which, classes, an, dxs, wit, info)
+            else:
+                held = Buffered(ctx, True)
+                check(held, which, classes, an, dxs, wit, info)
+                control = None
+                if set(held.v) - set(load_known().get(which, {})):
+                    # control: the same bytes, the same early look and rename, FRESH DEX objects without a history. What only shows up with the history
+                    # is reported under a name of its own: the answer of an Analysis depends on what its DEX objects were used for before
+                    try:
+                        an2, dxs2 = analyse(datas, hook, None if look is None else __import__("random").Random(look_seed), (), final)
+                        control = Buffered(ctx, False)
+                        check(control, which, classes, an2, dxs2, wit)
+                        ctx.count("control_analyses_with_fresh_dex_objects")
+                    except Exception:
+                        control = None
+                for mech, lst in held.v.items():
+                    name = mech
+                    if control is not None and mech not in control.v:
+                        name = mech + "-only-when-the-dex-objects-were-analysed-before"
+                    for what, w_ in lst:
+                        ctx.violation(name, what if name == mech else what + " (fresh DEX objects of the same bytes: no such difference)", w_)
         except Exception as e:
             import traceback
             ctx.violation("xref-query-raises", "an xref query raises", dict(wit, exc=traceback.format_exc()[-800:]))
@@ -429,10 +599,19 @@ def run(ctx, which):
     ctx.rule = ("programs from vf/gen/refprog.py: invoke-virtual/super/direct/static/interface and /range on internal, external and array-class methods; iget/iput/sget/sput (7 variants) on "
                 "fields of the same class, of other classes and (35% of the cases) of classes in a second DEX of the same Analysis, and on undefined fields; const-string(/jumbo) with "
                 "shared values; new-instance / const-class on internal, external, array and primitive-array types; repeated at several offsets; a big-index pool (32760..65024 padding fields/methods/strings in front, so that the program's indices cross 0x8000 or approach 0xFFFF). Real Analysis.add + create_xref; "
-                "every xref table compared with the model. distinct non-trivial = distinct (#sites, #targets, external?, array?) per method/field/string/class")
+                "every xref table compared with the model. Usage / layout stream (own rng): twin methods with byte-identical bodies and a writer that deduplicates code items, so that "
+                "several encoded methods of a class (or of several classes) share ONE code_item - each of them has every site of the shared code; two or three DEX files; DEX OBJECTS "
+                "with a history: analysed before alone, per piece, in another company or load order, then put into the Analysis under test (all pieces, or a subset after they were analysed "
+                "together) - the expectation only depends on the DEX files the Analysis holds; a difference that fresh DEX objects of the same bytes do not show is reported as "
+                "<mechanism>-only-when-the-dex-objects-were-analysed-before. distinct non-trivial = distinct (#sites, #targets, external?, array?) per method/field/string/class")
     ctx.assumptions = ["const-class / new-instance on the method's own class and const-class on [LFoo; (recorded by androguard on LFoo;) are don't-care",
                        "vf/model/dexw.py + vf/gen/refprog.py site offsets"]
     n = 480 if ctx.quick else 64000
     ctx.run_shards(MOD, "shard", [[which, i, n // 16 + 1] for i in range(16)], timeout=3000)
     ctx.require_counter("analyses", 100)
+    # the scenarios of the usage / layout stream must have been compared (not just generated)
+    ctx.require_counter("analyses_of_dex_objects_that_were_analysed_before", 20)
+    ctx.require_counter("cross_dex_sites_compared_after_the_dex_object_was_analysed_without_the_other_dex", 10)
+    ctx.require_counter("analyses_without_a_dex_the_object_was_analysed_with", 2)
+    ctx.require_counter("sites_compared_in_methods_sharing_a_code_item", 20)
     ctx.min_distinct = 8
